@@ -965,6 +965,26 @@ def gen_cases(rng, tier, focus, n, stream):
     for (game, nl) in [(2, 1), (3, 2), (4, 0), (2, 0)]:
         c = FsCase(game, k % 8, [[("d/a.bin", b"x")]] * nl, [])
         out.append(Case(render_case(c, fresh_base()), "new-errors"))
+    # foreign stored forms under a compressed name, read through every game: the 24-bit field of the 0x13 wrapper is not looked
+    # at by the decoder (C11), so a valid LZ11 stream behind a wrapper of ANY value - 0, smaller or larger than the decoded size -
+    # is served decoded (seeded change C12-10 rejected streams whose wrapper value is smaller than the decoded size; it had been
+    # caught by a randomly drawn file content with one seed and not with another)
+    for game in SUPPORTED:
+        fmt, sufs = SPEC_CFG[GAMES[game]][0], SPEC_CFG[GAMES[game]][1]
+        bodies = []
+        for pay in (b"", b"abc", bytes(range(65, 65 + 20))):
+            lz = bytes([0x11 if fmt == "13" else 0x10]) + len(pay).to_bytes(3, "little")
+            for i in range(0, len(pay), 8):
+                lz += b"\x00" + pay[i:i + 8]
+            if fmt == "13":
+                for v in (0, 1, max(len(pay) - 1, 0), len(pay), len(pay) + 1, 0xFFFFFF):
+                    bodies.append(b"\x13" + v.to_bytes(3, "little") + lz)
+            else:
+                bodies.append(lz)
+        for j, body in enumerate(bodies):
+            pth = "d/f%d%s" % (j, sufs[j % len(sufs)])
+            c = FsCase(game, j % 8, [[(pth, body)], [("d/other.bin", b"x")]], [("R", 0, pth), ("E", 0, pth), ("R", 0, pth)])
+            out.append(Case(render_case(c, fresh_base()), "foreign-stored-forms"))
     return out
 
 
